@@ -382,10 +382,10 @@ func init() {
 		},
 		Post: c06Post,
 		Phases: []explore.Phase{
-			{Name: "schedules", Quick: []int{0, 1, 2}, Thorough: []int{0, 1, 2, 3}, ShardDepth: 1,
+			{Name: "schedules", Quick: []int{0, 1, 2}, Thorough: []int{0, 1, 2, 3, 4}, ShardDepth: 1,
 				Init: func(int) { debug.SetGCPercent(-1) },
 				Run:  func(c *explore.Chooser, x *explore.Ctx, bound int) { c06Run(c, x, bound, "quick") }},
-			{Name: "schedules-3threads", Thorough: []int{0, 1, 2}, ShardDepth: 1,
+			{Name: "schedules-3threads", Thorough: []int{0, 1, 2, 3}, ShardDepth: 1,
 				Init: func(int) { debug.SetGCPercent(-1) },
 				Run:  func(c *explore.Chooser, x *explore.Ctx, bound int) { c06Run(c, x, bound, "three") }},
 		},
